@@ -186,12 +186,19 @@ void run_exec(const Execution &ex) {
     fs::create_directories(base);
     std::string path = base + "/target";
     std::string kind = ex.cfg.str("kind", "absent");
+    if (ex.cfg.num("link", 0)) {
+        // the path File sees is a symbolic link to the real entry (a dangling one if there is none): same answers expected
+        std::string real = base + "/real entry";
+        fs::create_symlink(real, path);
+        path = real;
+    }
     if (kind == "dir") fs::create_directory(path);
     else if (kind == "file") {
         std::ofstream o(path, std::ios::binary);
         std::string c = expand(ex.cfg.str("content", "-"), pal, mult);
         o.write(c.data(), (std::streamsize) c.size());
     }
+    if (ex.cfg.num("link", 0)) path = base + "/target";
     {
         File file;
         int i = 0;
